@@ -32,6 +32,7 @@ FILE_DEPS = {
     "enc/lzma_writer.rs": ["enc/lzma2_writer.rs"],
     "enc/lzma2_writer.rs": ["enc/range_enc.rs"],
     "enc/lzma2_writer_mt.rs": ["enc/lzma2_writer.rs"],
+    "lzma_reader.rs": ["range_dec.rs", "decoder.rs", "state.rs"],
     "enc/range_enc.rs": ["range_dec.rs"],
     "enc/encoder.rs": ["enc/range_enc.rs", "range_dec.rs", "decoder.rs", "state.rs"],
     "lzip/reader.rs": ["lzip.rs", "lzma_reader.rs", "range_dec.rs"],
@@ -423,6 +424,25 @@ U(id="C10.newdrop.wz", props=["C10", "C18"], file="lzip/writer_mt.rs", harnesses
   functions=[("src/lzip/writer_mt.rs", "new", "LZIPWriterMT"), ("src/lzip/writer_mt.rs", "drop", "Drop for LZIPWriterMT")], contract=_ND)
 U(id="C10.newdrop.rz", props=["C10"], file="lzip/reader_mt.rs", harnesses=["c10_new_drop_r_lzip"], stubs=[], assumptions=SCHED, contract_stubs=DROPSTUB + ["LZIPReaderMT::scan_members -> Ok (its body: C08.scan)"],
   functions=[("src/lzip/reader_mt.rs", "new", "LZIPReaderMT"), ("src/lzip/reader_mt.rs", "drop", "Drop for LZIPReaderMT")], contract=_ND)
+
+U(id="C15.trusted.asm", props=["C15", "C14", "C06"], backend="pin", kind="assumed", stubs=[], assumptions=SIMD,
+  functions=[("src/range_dec.rs", "decode_direct_bits_x86_64"), ("src/range_dec.rs", "decode_direct_bits_aarch64"), ("src/range_dec.rs", "decode_direct_bits"),
+             ("src/lz/lz_encoder.rs", "normalize_avx2"), ("src/lz/lz_encoder.rs", "normalize_sse41"), ("src/lz/lz_encoder.rs", "normalize_neon")],
+  contract="ASSUMED, not proved (inline asm / SIMD intrinsics are outside Kani and Verus): the asm direct-bit decoders clamp every byte load to index min(pos, len-1) of the chunk buffer and compute the portable loop's result; the SIMD normalisers compute max(p,off)-off on aligned chunks from align_to_mut. The text of these functions is pinned: a change makes this unit UNDECIDED")
+
+_CUT = "one write of 20 bytes with K in {0,3,7} bytes already pending, unit size 8: every dispatched unit has exactly unit-size bytes, units are the input in order, < unit size stays pending, all bytes consumed"
+CUTSTUB = ["send_work_unit -> ghost unit log (own body: C10.newdrop / queue units)", "get_next_compressed_chunk -> Ok(None) (no result ready)", "spawn_worker_thread -> ghost counter", "Arc::drop_slow -> leak"]
+U(id="C18.mt.w2", props=["C18", "C13", "C08", "C07"], file="enc/lzma2_writer_mt.rs", harnesses=["c18_mt_write_cut_lzma2_k0", "c18_mt_write_cut_lzma2_k3", "c18_mt_write_cut_lzma2_k7"], assumptions=SCHED, contract_stubs=CUTSTUB,
+  kind="bounded", bound="unit size 8 (field set after the real constructor), one 20-byte write, 0/3/7 pending bytes",
+  functions=[("src/enc/lzma2_writer_mt.rs", "write", "Write for LZMA2WriterMT")], contract=_CUT)
+U(id="C18.mt.wz", props=["C18", "C13", "C08", "C07"], file="lzip/writer_mt.rs", harnesses=["c18_mt_write_cut_lzip_k0", "c18_mt_write_cut_lzip_k3", "c18_mt_write_cut_lzip_k7"], assumptions=SCHED, contract_stubs=CUTSTUB,
+  kind="bounded", bound="member size 8 (field set after the real constructor), one 20-byte write, 0/3/7 pending bytes",
+  functions=[("src/lzip/writer_mt.rs", "write", "Write for LZIPWriterMT")], contract=_CUT)
+
+U(id="C16.l1.end", props=["C16", "C01", "C12"], file="lzma_reader.rs", harnesses=["c16_lzma_end_marker_first_symbol", "c16_lzma_end_marker_after_bytes"],
+  contract_stubs=["LZMADecoder::decode -> script: (optionally k literal bytes, normalised as the real Ok path does) then the end marker = Err from the dictionary with reps[0] = -1, before decode's trailing normalise"],
+  functions=[("src/lzma_reader.rs", "read_decode"), ("src/range_dec.rs", "normalize"), ("src/range_dec.rs", "is_stream_finished"), ("src/decoder.rs", "end_marker_detected")],
+  contract="end marker with the range decoder in any state: Ok(bytes before it), stream finished, range decoder normalised (exactly the byte the coder still needs is consumed, none beyond), later reads Ok(0) without touching the source")
 
 # ---------------------------------------------------------------------------------------- quick-tier budget
 # Harnesses kept in the quick tier per unit; every other harness of the unit runs in the thorough tier only.
